@@ -1,0 +1,112 @@
+//! Verification hook for property C13 (only compiled with `--cfg redb_verif`), read-only and
+//! add-only: an observer that does not borrow the `Database`. `Database::compact(&mut self)`
+//! keeps the database mutably borrowed for the whole call; a harness that stops the call at the
+//! H4 pause points between compact()'s own transactions can use a `VObserver` obtained before the
+//! call to look at the allocator, the committed roots and the page paths `compact_pages()`
+//! collects (every page of every tree with its ancestors, root first). Like a `WriteTransaction`,
+//! the observer only holds an `Arc` of the transactional memory. Nothing in here changes
+//! behaviour of the crate.
+
+use crate::db::TransactionGuard;
+use crate::tree_store::{
+    Btree, InternalTableDefinition, PageHint, PageResolver, TransactionalMemory,
+};
+use crate::verif::{VMem, VPage, VReach, VRoot};
+use crate::{Database, Result};
+use alloc::string::{String, ToString};
+use alloc::sync::Arc;
+use alloc::vec::Vec;
+use core::ops::RangeFull;
+
+pub struct VObserver {
+    mem: Arc<TransactionalMemory>,
+}
+
+/// The pages of one tree, each with its path from the root of that tree (root first, the page
+/// itself last), in the order and form `visit_all_pages` reports them to `compact_pages()`.
+/// Pages of a multimap subtree carry the path of the leaf that holds the subtree root in front.
+#[derive(Clone, Debug, PartialEq, Eq)]
+pub struct VTreePaths {
+    /// the system tree (true) or the data tree (false)
+    pub system: bool,
+    /// `None`: the master (table) tree itself; `Some(name)`: that table
+    pub table: Option<String>,
+    pub multimap: bool,
+    pub paths: Vec<Vec<VPage>>,
+}
+
+impl Database {
+    pub fn verif_observer(&self) -> VObserver {
+        VObserver {
+            mem: self.get_memory(),
+        }
+    }
+}
+
+impl VObserver {
+    /// Same as `Database::verif_snapshot().mem`
+    pub fn mem_snapshot(&self) -> VMem {
+        self.mem.verif_snapshot()
+    }
+
+    /// Same as `Database::verif_reach`
+    pub fn reach(&self, data_root: Option<VRoot>, system_root: Option<VRoot>) -> Result<VReach> {
+        crate::verif::reach(
+            &self.mem,
+            data_root.map(VRoot::header),
+            system_root.map(VRoot::header),
+        )
+    }
+
+    /// Page paths of the data tree and the system tree under the given committed roots
+    pub fn page_paths(
+        &self,
+        data_root: Option<VRoot>,
+        system_root: Option<VRoot>,
+    ) -> Result<Vec<VTreePaths>> {
+        let mut out = Vec::new();
+        for (system, root) in [(false, data_root), (true, system_root)] {
+            let resolver = PageResolver::new(self.mem.clone());
+            let guard = Arc::new(TransactionGuard::untracked());
+            let master: Btree<&str, InternalTableDefinition> = Btree::new(
+                root.map(VRoot::header),
+                PageHint::None,
+                guard,
+                resolver.clone(),
+            )?;
+            let mut paths = Vec::new();
+            master.visit_all_pages(|path| {
+                let mut p: Vec<VPage> = path.parents().iter().map(|x| VPage::of(*x)).collect();
+                p.push(VPage::of(path.page_number()));
+                paths.push(p);
+                Ok(())
+            })?;
+            out.push(VTreePaths {
+                system,
+                table: None,
+                multimap: false,
+                paths,
+            });
+            for entry in master.range::<RangeFull, &str>(&(..))? {
+                let entry = entry?;
+                let definition = entry.value();
+                let multimap = matches!(definition, InternalTableDefinition::Multimap { .. });
+                let mut paths = Vec::new();
+                definition.visit_all_pages(resolver.clone(), PageHint::None, |path| {
+                    let mut p: Vec<VPage> =
+                        path.parents().iter().map(|x| VPage::of(*x)).collect();
+                    p.push(VPage::of(path.page_number()));
+                    paths.push(p);
+                    Ok(())
+                })?;
+                out.push(VTreePaths {
+                    system,
+                    table: Some(entry.key().to_string()),
+                    multimap,
+                    paths,
+                });
+            }
+        }
+        Ok(out)
+    }
+}
